@@ -560,6 +560,13 @@ def check_c15(c, result):
                         pos = [a for _, a in q['frm']].index(item[1])
                         if not v.startswith('Node{Type: %s,' % q['frm'][pos][0]):
                             bad = ('bare alias describes an entity of another kind', v[:60])
+                        else:
+                            # ... and it must be THIS combination's entity: its name follows the kind
+                            ent = rs[k * i + pos]
+                            cands = byloc.get((ent['file'], ent['line'], ent['code'], q['frm'][pos][0]), [])
+                            names = [engine.hexs(n['name']) for n in cands]
+                            if cands and not any(v.startswith('Node{Type: %s, Name: %s, ' % (q['frm'][pos][0], nm)) for nm in names):
+                                bad = ('bare alias describes another entity than the one of this combination', v[:80], names[:2])
                 if bad:
                     break
             if bad:
